@@ -549,6 +549,33 @@ theorem C03_array_field (env : Env) (hp : RulesProgress env.cfg = true) (F D : N
       w7.delivered = w.delivered + 1 ∧ w7.anon = w.anon ∧ w7.muted = false ∧ w7.nextId = w.nextId :=
   toplevel_field_array_pre env hp F D w toks first trest segs cst vol pre ops x ob content cb semi d1 b1 b0 bmid bx bo bc b' blk rest hstack hk acc hacc hmu hfa hspec htoks hfirst htok hy0 hhead hy hpre hfn hnr hops htx hx hxv hto hob hn hcb hyc hsemi hs hF
 
+/-- **bit-field members `S prefix x : width ;` through `parse()`'s loop**, any type specifier, any declarator prefix: exactly ONE
+    `on_class_field` with the access level in force whose `bits` is the written decimal width -/
+theorem C03_bitfield_member (env : Env) (hp : RulesProgress env.cfg = true) (F D : Nat) (w : World)
+    (toks : List Tok) (first : Tok) (trest : List Tok) (segs : List PQSeg) (cst vol : Bool)
+    (pre : List (String × String)) (ops : List Tok) (x colon num semi : Tok) (d1 : DType) (b1 b0 bmid bx bc bn b' : Buf)
+    (blk : Block) (rest : List Block) (hstack : w.stack = blk :: rest) (hk : blk.hdr.kind = .cls) (acc : String) (hacc : blk.access = some acc)
+    (hmu : w.muted = false) (hfa : ¬ env.faultAt = some w.delivered)
+    (hspec : TypeSpecR env F D toks segs cst vol) (htoks : toks = first :: trest) (hfirst : specFirst first.type = true)
+    (htok : tokenEofOk env.cfg w.buf = .ok (some first, b1))
+    (hy0 : Yields env.cfg b1 trest b0)
+    (hhead : ∀ p ∈ pre.head?, declStart p.1 = true ∧ p.2 ≠ "auto")
+    (hy : Yields env.cfg b0 ops bmid)
+    (hpre : PrefixSpec env F (D + 1) (.type (.mk segs none false) cst vol) pre d1) (hfn : isFnType d1 = false) (hops : tvs ops = pre)
+    (htx : tokenEofOk env.cfg bmid = .ok (some x, bx)) (hx : x.type = "NAME") (hxv : identVal x.value = true)
+    (htc : tokenEofOk env.cfg bx = .ok (some colon, bc)) (hc : colon.type = ":")
+    (htn : tokenEofOk env.cfg bc = .ok (some num, bn)) (hn : num.type = "INT_CONST_DEC") (hdig : allDigits num.value = true)
+    (hsemi : tokenEofOk env.cfg bn = .ok (some semi, b')) (hs : semi.type = ";")
+    (hF : 2 ≤ F) :
+    ∃ (d : Option String) (bD : Buf) (w7 : World) (ct : CTok) (dox : Option String) (ev : Event),
+      getDoxygen env.cfg env.mcRe w.buf = .ok (d, bD) ∧
+      interp env (mainBody F (core F (D + 1 + 1)) none) w = (w7, .ok (.inl none)) ∧
+      SigEq b' w7.buf ∧ ct.value = first.value ∧ w7.stack = { blk with loc := .tok ct.sidx } :: rest ∧
+      w7.events = w.events ++ [ev] ∧ ev.kind = .item (.classField ({ plainField x d1 acc dox with bits := some num.value.toNat! })) ∧
+      ev.stateId = blk.id ∧ ev.parentId = rest.head?.map (·.id) ∧ (∀ dd, d = some dd → dox = some dd) ∧
+      w7.delivered = w.delivered + 1 ∧ w7.anon = w.anon ∧ w7.muted = false ∧ w7.nextId = w.nextId :=
+  toplevel_field_bits_pre env hp F D w toks first trest segs cst vol pre ops x colon num semi d1 b1 b0 bmid bx bc bn b' blk rest hstack hk acc hacc hmu hfa hspec htoks hfirst htok hy0 hhead hy hpre hfn hops htx hx hxv htc hc htn hn hdig hsemi hs hF
+
 /-- such a member is a piece of whole class bodies: `Member.fieldGen` composes with every other member kind in
     `Item.cls`, so `parse_source` covers classes whose data members have cv-qualified / fundamental types -/
 example (env : Env) (hp : RulesProgress env.cfg = true) (hnf : env.faultAt = none) (F D : Nat) (v : SpecDeclToks) :
